@@ -14,7 +14,7 @@ import re
 from hypothesis import strategies as st
 
 from . import sim as simmod
-from .core import Violation, HarnessError, canon
+from .core import Violation, HarnessError, canon, derive_seed
 from .vloop import Deadlock, StepBound
 
 ROOT_STATES = ("root", "0root", "boot", "0boot")
@@ -95,6 +95,37 @@ def catalogue(tier, lazy_share=True):
             if lazy_share and ws_name in ("w2", "w3", "cc", "restricted", "mixed") and (tier != "quick" or not big):
                 scenarios.append((f"{sel_name}/{ws_name}/lazy", simmod.Scenario(selection, dict(DEFAULT_VMS), nets, lazy=True)))
     return scenarios
+
+
+# selections drawn per run on top of the catalogue (the catalogue fixes the shapes it knows; two defects lived in
+# shapes it did not contain): 1-3 leaves of the shipped suite, optionally with one inner setup test
+RANDOM_LEAVES = ["tutorial1", "tutorial2..files", "tutorial2..names", "tutorial3..no_remote", "tutorial_gui..client_noop",
+                 "tutorial_gui..client_clicked", "tutorial_get..explicit_noop", "tutorial_get..explicit_clicked",
+                 "tutorial_get..implicit_both", "tutorial_finale"]
+RANDOM_INNER = ["connect", "on_customize", "linux_virtuser", "customize"]
+RANDOM_WORKERS = [("w1", "net1", False), ("w2", "net1 net2", False), ("w2", "net1 net2", True), ("w3", "net1 net2 net3", True),
+                  ("cc", "cluster1.net6 cluster2.net6", False), ("cc", "cluster1.net6 cluster2.net6", True),
+                  ("mixed", "net1 cluster1.net6", False), ("mixed", "net1 cluster1.net6", True),
+                  ("c2", "cluster1.net6 cluster1.net7", False), ("restricted", "net3 net4", True)]
+
+
+def random_scenarios(seed_value, count):
+    """`count` scenarios chosen by a generator seeded from VERIF_SEED and the shard (deterministic per run; the
+    replay file carries the whole scenario, so a failure does not depend on this choice being repeated)."""
+    import random
+
+    rnd = random.Random(seed_value)
+    out = []
+    for _ in range(count):
+        leaves = rnd.sample(RANDOM_LEAVES, rnd.choice([1, 2, 2, 3]))
+        parts = ["leaves.." + leaf for leaf in sorted(leaves)]
+        if rnd.random() < 0.3:
+            parts.append("nonleaves.." + rnd.choice(RANDOM_INNER))
+        ws_name, nets, lazy = rnd.choice(RANDOM_WORKERS)
+        selection = ",".join(parts)
+        name = "rnd:" + "+".join(p.split("..", 1)[1].replace("..", ".") for p in parts) + f"/{ws_name}" + ("/lazy" if lazy else "")
+        out.append((name, simmod.Scenario(selection, dict(DEFAULT_VMS), nets, lazy=lazy)))
+    return out
 
 
 # ---------------------------------------------------------------------------
@@ -282,7 +313,8 @@ def scope_group(sim, event):
 def labels_of(sim, case):
     labels = [f"workers={len(sim.workers)}", "lazy" if case["scenario"]["lazy"] else "eager",
               "pools=" + case["pools"].get("mode", "?"), f"T={case['run'].get('test_timeout')}",
-              "selection=" + str(case.get("scenario_name", "?")).split("/")[0]]
+              "selection=" + ("random" if str(case.get("scenario_name", "?")).startswith("rnd:")
+                              else str(case.get("scenario_name", "?")).split("/")[0])]
     starts = sim.starts()
     ends = sim.ends()
     if any(e["attempt"] > 0 for e in starts):
@@ -849,17 +881,24 @@ NONTRIVIAL = {
 
 
 def make_run(prop, bias, scenario_filter=None, quick_cases=1280, thorough_cases=16000, per_shard_scenarios=(7, 18),
-             enumerate_failures=False):
+             enumerate_failures=False, random_scenarios_per_shard=(2, 6)):
     def run(ctx):
         simmod.setup()
         items = catalogue(ctx.tier)
         if scenario_filter:
             items = [(n, s) for n, s in items if scenario_filter(n, s)]
-        rotate = ctx.seed % max(1, len(items))
-        items = items[rotate:] + items[:rotate]
+        # which part of the catalogue a quick run sees depends on VERIF_SEED: a seeded shuffle, so that consecutive
+        # seeds see different halves (a rotation by the seed would show nearly the same scenarios at seeds 1, 2, 3)
+        import random
+
+        random.Random(derive_seed(ctx.seed, "catalogue-order")).shuffle(items)
         mine = ctx.my_slice(items)
         count = per_shard_scenarios[0] if ctx.tier == "quick" else per_shard_scenarios[1]
         mine = dict(mine[:count])
+        drawn = random_scenarios(ctx.shard_seed("random-selections"), random_scenarios_per_shard[0 if ctx.tier == "quick" else 1])
+        if scenario_filter:
+            drawn = [(n, s) for n, s in drawn if scenario_filter(n, s)]
+        mine.update(dict(drawn))
         if not mine:
             return
         ctx.extra["scenarios"] = len(mine)
@@ -1003,7 +1042,7 @@ BIASES = {
 DRIVER_ARGS = {
     "C02": {"enumerate_failures": True},
     "C04": {"scenario_filter": lambda name, scenario: len(scenario.nets.split()) >= 2},
-    "C05": {"scenario_filter": lambda name, scenario: any(k in name for k in ("gui", "get", "finale")),
+    "C05": {"scenario_filter": lambda name, scenario: any(k in name.replace("nongui", "") for k in ("gui", "get", "finale")),
             "quick_cases": 1280},
     "C08": {"scenario_filter": lambda name, scenario: len(scenario.nets.split()) >= 2},
 }
